@@ -241,6 +241,13 @@ def is_decimal(vc, bts):
     return SBool(z3.InRe(bts.t, z3.Plus(z3.Range("0", "9"))))
 
 
+def three_digit_status(vc, bts):
+    """RFC 9110 15: status-code = 3DIGIT in 100..999"""
+    if vc.mode == "native":
+        return len(bts) == 3 and all(48 <= c <= 57 for c in bts) and bts[0] != 48
+    return And(len_(bts) == 3, is_decimal(vc, bts), code_at(bts, 0) != 48)
+
+
 def decimal_value(vc, bts):
     if vc.mode == "native":
         return int(bts)
@@ -259,19 +266,21 @@ def s_parse_resp(vc):
         vc.ensure("malformed.rejected_with_value_error", (not out.ok) and issubclass(out.raised_type(), ValueError))
         return
     status = blk[0][1]
-    if vc.branch(is_decimal(vc, status)):
+    # RFC 9110 15: status-code = 3DIGIT, 100..999; only such a value can be written as an HTTP/1 status line
+    # (any int()-parsable text was accepted before: KF-C06-5, fixed in /repo)
+    if vc.branch(three_digit_status(vc, status)):
         vc.ensure("decimal_status.accepted", out.ok)
         if not out.ok:
             return
         vc.ensure("status_code_is_the_decimal_value", vc.eq(out.result[0], decimal_value(vc, status)))
+        vc.ensure("status_code_in_range", And(out.result[0] >= 100, out.result[0] <= 999))
         regular = [(k, v) for (n, (k, v)) in zip(names, blk) if not n.startswith(":")]
         hf = hfields(vc, out.result[1])
         vc.ensure("fields.count", len(hf) == len(regular))
         if len(hf) == len(regular):
             vc.ensure("fields.same_order_names_values", fields_eq(vc, hf, regular))
     else:
-        # not a plain decimal number: either rejected, or (Python int() leniency: sign, underscores, blanks) some integer
-        vc.ensure("non_decimal_status.error_is_value_error", out.ok or issubclass(out.raised_type(), ValueError))
+        vc.ensure("malformed_status.rejected_with_value_error", (not out.ok) and issubclass(out.raised_type(), ValueError))
 
 
 def mk_request(vc, version, method, scheme, authority, path, fields, host="a.test", port=443):
@@ -599,7 +608,7 @@ def s_h1_trailers(vc):
         ev = vc.new("mitmproxy.proxy.layers.http._events:RequestTrailers", stream_id=1, trailers=trailers)
         out = vc.call(M1 + ":Http1Client.send", layer, ev)
     # trailers that the HTTP/1 hop cannot carry (no chunked coding) may be dropped, but the message must go on
-    vc.ensure_kf("trailers_do_not_abort_the_exchange", out.ok, "KF-C06-2", True)
+    vc.ensure("trailers_do_not_abort_the_exchange", out.ok)   # was KF-C06-2
     if out.ok:
         vc.ensure("nothing_but_data_is_sent", all(is_cmd(c, "SendData") for c in out.trace))
 
@@ -640,6 +649,10 @@ def s_h3_parse(vc):
         layer = vc.new(M3 + ":Http3Client", debug=None)
         ev = vc.new("aioquic.h3.events:HeadersReceived", headers=as_arg(vc, blk), stream_id=sid, stream_ended=ended, push_id=None)
         out = vc.call(M3 + ":Http3Client.parse_headers", layer, ev)
+        if not vc.branch(three_digit_status(vc, blk[0][1])):
+            # (the caller, Http3Connection._handle_event, turns ValueError into H3_GENERAL_PROTOCOL_ERROR)
+            vc.ensure("bad_status.value_error", (not out.ok) and issubclass(out.raised_type(), ValueError))
+            return
         vc.ensure("no_exception", out.ok)
         if not out.ok:
             return
